@@ -60,7 +60,7 @@ Nested(c) == c[1] \in {"all", "any"} /\ \E i \in 1..Len(c[2]) : c[2][i][1] \in {
 CondOf(e) == IF e.op = "await_f" THEN (IF e.v THEN <<"flag", e.f>> ELSE <<"nflag", e.f>>)
              ELSE IF e.op = "await_lvl" THEN <<"lvl", e.p, <<e.v, F(e, "vb", 0)>>, F(e, "rel", "ge"), F(e, "nt", 1)>> ELSE e.c
 
-Fail(c) == bad' = c /\ UNCHANGED <<flg, done, now, waits>>
+Fail(c) == bad' = c /\ UNCHANGED <<flg, done, waits>>
 DropLast1(q) == SubSeq(q, 1, Len(q) - 1)
 \* the amount of the call activity a has in progress (its latest begin event)
 RECURSIVE PendAt(_, _)
@@ -117,7 +117,7 @@ Step ==
          \* waiters whose condition holds at the END of the time step that is now over
          stuck == {w \in waits : Ev(w.c, flg, done, now)} IN
      IF (t > now \/ (e.e = "fin" /\ e.ok)) /\ stuck # {}
-     THEN (IF \E w \in stuck : Nested(w.c) THEN Fail("C08.left_waiting_nested") ELSE Fail("C08.left_waiting"))
+     THEN (IF \E w \in stuck : Nested(w.c) THEN Fail("C08.left_waiting_nested") ELSE Fail("C08.left_waiting")) /\ now' = now
      ELSE
      /\ now' = t
      /\ CASE e.e = "b" /\ op = "fset" ->
